@@ -873,7 +873,15 @@ class Check(PropertyCheck):
                   "version check (bytes/str key precedence, int/bool/tuple normalisation, converter-graph lookup from Gen/C38) and "
                   "Flow.__types[state['type']] — a record the gate rejects ends the read with FlowReadException after exactly the flows "
                   "before it (rejected_record_stops_reader) and a record passes only with the current version and a registered type "
-                  "(gate_pass_current_and_registered); load written against a `read` environment (read(1) per prefix byte, read(n), read(1)) on a "
+                  "(gate_pass_current_and_registered); set_state of the selected flow class is transcribed as far as the SHAPE of the record decides "
+                  "(keys popped without default, no key besides 'backup', connection states with exactly their field names, error / "
+                  "response / websocket falsy-or-complete, request complete, messages iterable; key tables regenerated from the live "
+                  "classes): a record is turned into a flow only if it is Acceptable (accepted_record_is_wellshaped), for ANY byte string "
+                  "every yielded flow corresponds to an Acceptable loaded record (yielded_flows_come_from_acceptable_records), an "
+                  "ill-shaped record ends the read with FlowReadException after exactly the flows before it "
+                  "(illshaped_record_stops_reader, shaped_never_other); formats 19 and 20 run through migrate_flow's loop with C38_Conv's "
+                  "convert_19_20 / convert_20_21, the stale-bytes-key refusal and the same dispatch + shape on the converted state "
+                  "(unconvertible_record_stops_reader, converted_accept_needs_convertible, converted_never_other); load written against a `read` environment (read(1) per prefix byte, read(n), read(1)) on a "
                   "buffered reader over ANY segmentation of the stream equals load on the whole content "
                   "(read_chunk_independent, load_chunk_independent, load_same_for_all_segmentations). The model is tied to the code differentially on values, raw/mutated files and real flows "
                   "of every type; from_state∘get_state equality of flows is validated by the harness, not modelled.")
@@ -881,8 +889,10 @@ class Check(PropertyCheck):
                   "exhaustive); float literals are tokens (Python float()/repr() assumed to round-trip; the model only decides "
                   "which literals float() accepts); of Flow.from_state∘compat.migrate_flow the version check and the type dispatch are transcribed and PREDICTED in the "
                   "tie (stage-resolved: the harness observes whether an exception came before any converter / field access); "
-                  "what stays a parameter is set_state of the selected flow class, the converter chain for older versions (gate = defer; "
-                  "its field surgery is C38's model) and version values with float components (deferShape); the flow-type table includes "
+                  "what stays a parameter: the field-level checks of set_state (value types, Literal values, certificate PEMs, proxy-mode "
+                  "specs, message tuples) — the shape conditions are NECESSARY for acceptance, not sufficient, and rely on Python asserts being "
+                  "enabled; the converter chain for formats older than 19 (gate = defer); version values with float components "
+                  "(deferShape) and float-valued error/response/websocket (shape unknown); the flow-type table includes "
                   "the test helper's 'dummy' type because mitmproxy.test.tflow is imported by the harness; the HAR importer is a parameter "
                   "of the reader model (any outcome, exceptions classified ValueError / other Exception / non-Exception; "
                   "never_other assumes they raise no BaseException outside Exception, and — being total functions in the model — that they "
@@ -936,12 +946,39 @@ class Check(PropertyCheck):
     def translate(self):
         # (T) the registered flow types (Flow.__types, with the test helper's DummyFlow since mitmproxy.test.tflow is
         # imported here) and — via C38's translator — the converter graph and current format version
+        import dataclasses, inspect
         types = sorted(flow.Flow._Flow__types)
-        rows = ", ".join("[" + ", ".join("0x%02x" % c for c in t.encode()) + "]" for t in types)
-        src = ("-- GENERATED on every run by harness/c36.py from the live Flow.__types registry of /repo — do not edit\n"
+        def bl(t): return "[" + ", ".join("0x%02x" % c for c in t.encode()) + "]"
+        def bll(ts): return "[" + ", ".join(bl(t) for t in ts) + "]"
+        rows = ", ".join(bl(t) for t in types)
+        def dc_fields(c): return [f.name for f in dataclasses.fields(c) if f.metadata.get("serialize", True) is not False]
+        def init_params(c): return [n for n in inspect.signature(c.__init__).parameters if n != "self"]
+        # the keys the set_state methods of each registered class pop WITHOUT default (required), read off their source;
+        # "backup" is popped with a default (optional)
+        def keys_of(t):
+            import re
+            cls, req = flow.Flow._Flow__types[t], []
+            for c in cls.__mro__:
+                if "set_state" in c.__dict__ and issubclass(c, flow.Flow):
+                    src = inspect.getsource(c.__dict__["set_state"])
+                    req = re.findall(r'state\.pop\(\s*"(\w+)"\s*\)', src) + req      # pops without default: required keys
+            assert "version" in req and "type" in req and "client_conn" in req, req
+            return list(dict.fromkeys(req))
+        type_rows = ", ".join("(" + bl(t) + ", " + bll(keys_of(t)) + ")" for t in types)
+        src = ("-- GENERATED on every run by harness/c36.py from the live classes of /repo — do not edit\n"
                "-- " + " ".join(types) + "\n"
-               "import MitmVerif.Basic.Bytes\nnamespace MitmVerif.Gen.C36\n\n"
-               f"def flowTypes : List MitmVerif.Bytes := [{rows}]\n\nend MitmVerif.Gen.C36\n")
+               "import MitmVerif.Basic.Bytes\nnamespace MitmVerif.Gen.C36\nopen MitmVerif\n\n"
+               f"def flowTypes : List Bytes := [{rows}]\n\n"
+               "/-- per registered flow type: the top-level keys its set_state pops without default -/\n"
+               f"def typeKeys : List (Bytes × List Bytes) := [{type_rows}]\n\n"
+               f"def clientKeys : List Bytes := {bll(dc_fields(connection.Client))}\n"
+               f"def serverKeys : List Bytes := {bll(dc_fields(connection.Server))}\n"
+               f"def errorKeys : List Bytes := {bll(dc_fields(flow.Error))}\n"
+               f"def requestKeys : List Bytes := {bll(init_params(http.Request))}\n"
+               f"def responseKeys : List Bytes := {bll(init_params(http.Response))}\n"
+               f"def websocketKeys : List Bytes := {bll(dc_fields(websocket.WebSocketData))}\n"
+               f"def dnsKeys : List Bytes := {bll(dc_fields(dns.DNSMessage))}\n\n"
+               "end MitmVerif.Gen.C36\n")
         out = {"MitmVerif/Gen/C36.lean": src}
         import c38
         out.update(c38.Check().translate())
